@@ -1,6 +1,8 @@
 import DimodProofs.ContainerProofs
 import DimodProofs.DqmFile
 import DimodProofs.JsonContracts
+import DimodProofs.HeaderContracts
+import DimodProofs.ZipEnd
 
 /-! # C10 — a truncated model file never loads as a different model -/
 
@@ -209,5 +211,77 @@ theorem truncation_safe_bqm_json (maj : UInt8) (ignore : Bool) (vartype dsz isz 
           (bqmHeaderOf maj.toNat ignore vartype dsz isz c labels) c (varsTextOf labels)).length - pad ≤ k) := by
   obtain ⟨pad, hp, hc⟩ := Comp.bqm_json maj ignore vartype dsz isz c labels hmaj hd hi hv hl wf hlen hvlen
   exact ⟨pad, hp, fun k hk => hc.truncation_safe k hk⟩
+
+/-! ## round 6: the zip contract as a theorem over the byte-level end-record search -/
+
+/-- **`zipfile` rejects every proper prefix of an archive.**  `_EndRecData` (modelled byte for byte: the
+    last 22 bytes, then the last occurrence of the signature in the last `65536 + 22` bytes, then the
+    22-byte length test) finds no end record in any proper prefix of a file `w` in which the signature
+    `PK\x05\x06` occurs only within the last 22 bytes — i.e. only where the writer put the record.  So
+    `ZipFile(prefix)` raises `BadZipFile` whatever a directory reader would do. -/
+theorem zip_prefix_rejected (readDir : EndRec → Bytes → Option β) (w : Bytes) (hocc : ∀ i, SigAt w i → w.length ≤ i + 22)
+    (j : Nat) (hj : j < w.length) : endRecData (w.take j) = none ∧ zipOpen readDir (w.take j) = none :=
+  ⟨endRecData_prefix_none w hocc j hj, zipOpen_prefix_none readDir w hocc j hj⟩
+
+/-- the side condition is necessary, and is why it is checked on every generated file: an archive
+    whose payload contains an end record (here: the record of an empty archive followed by two payload
+    bytes and the real record) has a proper prefix that `zipfile` opens -/
+theorem zip_prefix_needs_signature_free_payload :
+    ∃ (w : Bytes) (j : Nat), j < w.length ∧ (endRecData (w.take j)).isSome = true :=
+  ⟨eocdRecord 0 0 0 ++ [1, 2] ++ eocdRecord 0 0 24, 22, by decide, by decide⟩
+
+/-- **`ZipContract` is a theorem** (tail `0`): for an archive `x ++ e` (`e` the 22-byte end record, the
+    signature not occurring before it) the byte-level opener satisfies the contract the truncation
+    theorems `truncation_safe_cqm` / `truncation_safe_dqm` assume, given only that the directory reader
+    returns `a` on the COMPLETE archive. -/
+theorem zip_contract_holds (readDir : EndRec → Bytes → Option β) (x e : Bytes) (a : β)
+    (hlen : e.length = 22) (hsig : e.take 4 = sigEOCD) (hz : e.drop 20 = [0, 0])
+    (hocc : ∀ i, SigAt (x ++ e) i → x.length ≤ i) (hdir : (EndRec.mk x.length e).sizeCd ≤ x.length)
+    (hread : readDir ⟨x.length, e⟩ (x ++ e) = some a) :
+    ZipContract (zipOpen readDir) (x ++ e) a 0 :=
+  zipContract_of_eocd readDir x e a hlen hsig hz hocc hdir hread
+
+/-- **CQM files cut at any byte offset, no contract about `zipfile` at all**: with the archive located
+    in the whole file as `zipfile` does, every proper prefix of a CQM file in which the end-record
+    signature occurs only in the last 22 bytes makes `from_file` raise — in the header reader, or
+    `BadZipFile`.  The header text is the model's (`cqm_header_ok`); nothing is assumed of the
+    directory reader, of `json.loads` or of the members. -/
+theorem truncation_safe_cqm_zip (readDir : EndRec → Bytes → Option Archive) (parse : Bytes → Option (QHeader J))
+    (okLabel : List Char → Bool) (dsz : Nat) (counts : CqmCounts) (body : Bytes)
+    (hh : (dumpsDict (cqmCountsDict counts)).length + 65 < 2 ^ 32)
+    (hocc : ∀ i, SigAt (makeHeader cqmPrefix 2 0 (cqmHeaderText counts) ++ body) i →
+      (makeHeader cqmPrefix 2 0 (cqmHeaderText counts) ++ body).length ≤ i + 22)
+    (k : Nat) (hk : k < (makeHeader cqmPrefix 2 0 (cqmHeaderText counts) ++ body).length) :
+    ∃ e, cqmFileLoadW true dsz parseCqmHeader readDir parse okLabel
+      ((makeHeader cqmPrefix 2 0 (cqmHeaderText counts) ++ body).take k) = .err e := by
+  unfold cqmFileLoadW
+  obtain ⟨e, he⟩ := containerLoadW_cut cqmPrefix (cqmHeaderText counts) body 2 0 parseCqmHeader counts cqmVerOk (zipOpen readDir)
+    (cqm_header_ok counts hh) (fun j hj => zipOpen_prefix_none readDir _ hocc j hj) k hk
+  exact ⟨e, by rw [he]; rfl⟩
+
+/-- **DQM files cut at any byte offset, the npz blob located by the modelled end-record search**
+    (the loader that hands `np.load` the blob, i.e. dimod with the D58 repair): an exception, or the
+    original DQM with only padding of the `VARS` section lost.  Of `np.load` only the reading of the
+    COMPLETE blob is assumed. -/
+theorem truncation_safe_dqm_zip (parse : Bytes → Option (Bool × H)) (parseVars : Bytes → Option (List J))
+    (readNpz : EndRec → Bytes → Option (List NpyMember)) (hdrText x e varsText : Bytes) (labelled : Bool) (h : H) (c : DqmContent)
+    (labels : List J) (hh : HeaderOK parse hdrText (labelled, h)) (wf : DqmWF c)
+    (hlen : e.length = 22) (hsig : e.take 4 = sigEOCD) (hz : e.drop 20 = [0, 0])
+    (hocc : ∀ i, SigAt (x ++ e) i → x.length ≤ i) (hdir : (EndRec.mk x.length e).sizeCd ≤ x.length)
+    (hread : readNpz ⟨x.length, e⟩ (x ++ e) = some (dqmMembers c)) (hsz : (x ++ e).length < 256 ^ 4)
+    (hv : labelled = true → VarsOK parseVars varsText labels ∧ labels.length = c.caseStarts.length) :
+    ∃ pad, pad < 64 ∧ ∀ k, k < (dqmEncode hdrText labelled (x ++ e) varsText).length →
+      (∃ er, (dqmDecode parse parseVars (fun blob => (zipOpen readNpz blob).bind fun ms => match dqmFromMembers ms with | .ok d => some d | _ => none)
+          (fun d => d.caseStarts.length)).run ((dqmEncode hdrText labelled (x ++ e) varsText).take k) = .err er) ∨
+      ((dqmDecode parse parseVars (fun blob => (zipOpen readNpz blob).bind fun ms => match dqmFromMembers ms with | .ok d => some d | _ => none)
+          (fun d => d.caseStarts.length)).run ((dqmEncode hdrText labelled (x ++ e) varsText).take k) =
+            .ok ((h, c, if labelled then some labels else none), []) ∧
+        (dqmEncode hdrText labelled (x ++ e) varsText).length - pad ≤ k) := by
+  obtain ⟨pad, hp, hall⟩ := truncation_safe_dqm parse parseVars (zipOpen readNpz) hdrText (x ++ e) varsText labelled h c labels 0 hh wf
+    (zipContract_of_eocd readNpz x e _ hlen hsig hz hocc hdir hread) hsz hv
+  refine ⟨if pad < 64 then pad else 0, by split <;> omega, fun k hk => ?_⟩
+  rcases hp with hp | hp
+  · rw [if_pos hp]; exact hall k hk
+  · subst hp; simpa using hall k hk
 
 end C10
